@@ -55,11 +55,18 @@ pub struct P {
     /// the owner lowers the base-asset holding cap (to one unit) and the open-interest cap after
     /// the positions were opened, before the transaction(s) under test
     pub caps_lowered: bool,
+    /// right before the transaction(s) under test the owner closes the market and opens it again
+    /// (vAMM SetOpen false / true)
+    pub reopen: bool,
+    /// right before the transaction(s) under test the owner sends configuration updates with
+    /// out-of-range values (a partial-liquidation ratio above 100%); whatever the engine answers,
+    /// the property's clauses are judged on what follows
+    pub bad_admin: bool,
 }
 
 impl P {
     pub fn new(prop: &'static str, side: Side, seed: u64) -> P {
-        P { prop, native: false, dec: 9, fees: false, side, wide: false, seed, partial_sym: false, full_prefix: false, concrete_prefix: false, sym_lev: false, sym_lim: false, sym_ratios: false, bystanders: prop == "C10", sym_oracle: false, sym_counter: false, fault: None, real_feed: false, with_trend: false, attached: false, sym_funds: false, paused: false, vamm_ins_outsider: false, fee_seed: 0, caps_lowered: false }
+        P { prop, native: false, dec: 9, fees: false, side, wide: false, seed, partial_sym: false, full_prefix: false, concrete_prefix: false, sym_lev: false, sym_lim: false, sym_ratios: false, bystanders: prop == "C10", sym_oracle: false, sym_counter: false, fault: None, real_feed: false, with_trend: false, attached: false, sym_funds: false, paused: false, vamm_ins_outsider: false, fee_seed: 0, caps_lowered: false, reopen: false, bad_admin: false }
     }
     pub fn native(mut self) -> P {
         self.native = true;
@@ -203,6 +210,35 @@ impl P {
         self.caps_lowered = true;
         self
     }
+    pub fn reopen(mut self) -> P {
+        self.reopen = true;
+        self
+    }
+    pub fn bad_admin(mut self) -> P {
+        self.bad_admin = true;
+        self
+    }
+    /// owner actions between the prefix and the transaction(s) under test (`reopen`, `bad_admin`);
+    /// none of them is judged by itself
+    pub fn interlude(&self, r: &mut Run) {
+        if !self.reopen && !self.bad_admin {
+            return;
+        }
+        let was_full = symrt::is_full();
+        symrt::set_full(false);
+        if self.reopen {
+            for vi in 0..r.w.vamms.len() {
+                r.w.vamm_exec(OWNER, vi, &margined_perp::margined_vamm::ExecuteMsg::SetOpen { open: false });
+                r.w.vamm_exec(OWNER, vi, &margined_perp::margined_vamm::ExecuteMsg::SetOpen { open: true });
+            }
+        }
+        if self.bad_admin {
+            let d = r.w.d;
+            let over = [d + d / 50, d + d / 20, d + d / 1000][(self.seed % 3) as usize];
+            r.w.update_engine(None, None, Some(Uint128::new(over)), None);
+        }
+        symrt::set_full(was_full);
+    }
     pub fn paused(mut self) -> P {
         self.paused = true;
         self
@@ -252,6 +288,8 @@ impl P {
             + if self.caps_lowered { ".caps-lowered" } else { "" }
             + if self.paused { ".paused" } else { "" }
             + if self.vamm_ins_outsider { ".vamm-ins-outsider" } else { "" }
+            + if self.reopen { ".reopen" } else { "" }
+            + if self.bad_admin { ".bad-admin" } else { "" }
     }
     fn prefix_mode(&self) {
         symrt::set_full(self.full_prefix);
@@ -303,6 +341,7 @@ pub fn t_open2(p: P, second_same: bool) -> impl Fn() {
             return;
         }
         r.w.next_block(15);
+        p.interlude(&mut r);
         symrt::set_full(true);
         let m2 = amount("m2", d, p.wide, 10 + (p.seed % 11) as u128);
         let l2 = p.tx_lev("l2", d, 2 + (p.seed % 3) as u128);
@@ -346,6 +385,7 @@ pub fn t_close(p: P, bob_same: bool) -> impl Fn() {
             return;
         }
         r.w.next_block(15);
+        p.interlude(&mut r);
         symrt::set_full(true);
         let lim = p.tx_lim("qlim", d);
         r.step(Op::Close { who: ALICE, limit: lim });
@@ -401,9 +441,19 @@ pub fn t_liq(p: P, regime: u128) -> impl Fn() {
         if p.caps_lowered {
             assert!(r.w.update_vamm(0, Some(Uint128::new(d)), Some(Uint128::new(d)), None, None, None, None).ok);
         }
+        p.interlude(&mut r);
         symrt::set_full(true);
         let lim = p.tx_lim("qlim", d);
         r.step(Op::Liquidate { by: LIQ, trader: ALICE, limit: lim });
+        if p.reopen || p.bad_admin {
+            // what is left of the position is topped up and closed by its owner, then the
+            // counter-party closes
+            r.w.next_block(15);
+            let top = Uint128::new(100 * d);
+            r.step(Op::Deposit { who: ALICE, amount: top, funds: if p.native { Some(top) } else { None } });
+            r.step(Op::Close { who: ALICE, limit: Uint128::zero() });
+            r.step(Op::Close { who: BOB, limit: Uint128::zero() });
+        }
     }
 }
 
@@ -502,6 +552,26 @@ pub fn t_fund(p: P, then: u8) -> impl Fn() {
                 r.step(Op::Open { who: CAROL, side: opp(&p.side), margin: m4, lev: l1, limit: Uint128::zero(), funds: None });
                 r.step(Op::Close { who: CAROL, limit: Uint128::zero() });
             }
+            7 => {
+                // a position opened AFTER the first settlement, a SECOND settlement with a symbolic
+                // oracle price of its own (the two premiums may cancel: cumulative fraction back at
+                // exactly zero while the position's checkpoint is not), then close
+                let m3 = Uint128::new(12 * d);
+                let f = funds_for(&r, &p, m3, l1);
+                if !r.step(Op::Open { who: CAROL, side: p.side.clone(), margin: m3, lev: l1, limit: Uint128::zero(), funds: f }).tx.ok {
+                    return;
+                }
+                r.w.next_block(86_400);
+                let price2 = crate::sx::var("oracle2", 1, 1_000 * d, (if p.seed % 2 == 0 { 11 } else { 9 }) * d);
+                let now = r.w.now();
+                r.w.set_oracle(price2, now);
+                if !r.step(Op::PayFunding { by: EVE }).tx.ok {
+                    return;
+                }
+                r.w.next_block(15);
+                r.step(Op::Close { who: CAROL, limit: Uint128::zero() });
+                r.step(Op::Close { who: ALICE, limit: Uint128::zero() });
+            }
             3 => {
                 // opposite side: reduce or reverse depending on the symbolic size
                 let m3 = amount("m3", d, false, 50);
@@ -553,6 +623,13 @@ pub fn t_fund_pclose(p: P) -> impl Fn() {
 
 /// as T-fund-pclose, with a liquidation attempt by a third party after the partial close
 pub fn t_fund_pclose_liq(p: P, then_liq: bool) -> impl Fn() {
+    t_fund_pclose_then(p, if then_liq { 1 } else { 0 })
+}
+
+/// `then`: 0 close the rest, 1 a liquidation attempt first, 2 a withdrawal of a symbolic amount
+/// and a small increase first (no funding settlement in between: nothing is owed any more)
+pub fn t_fund_pclose_then(p: P, then: u8) -> impl Fn() {
+    let then_liq = then == 1;
     move || {
         let mut cfg = p.cfg();
         let d = cfg.d();
@@ -586,6 +663,13 @@ pub fn t_fund_pclose_liq(p: P, then_liq: bool) -> impl Fn() {
         assert!(r.w.update_vamm(0, None, None, None, None, Some(Uint128::zero()), None).ok);
         if then_liq {
             r.step(Op::Liquidate { by: LIQ, trader: ALICE, limit: Uint128::zero() });
+            r.w.next_block(15);
+        }
+        if then == 2 {
+            let b = amount("wd", d, false, 5);
+            r.step(Op::Withdraw { who: ALICE, amount: b });
+            r.w.next_block(15);
+            r.step(Op::Open { who: ALICE, side: p.side.clone(), margin: Uint128::new(2 * d), lev: l1, limit: Uint128::zero(), funds: None });
             r.w.next_block(15);
         }
         r.step(Op::Close { who: ALICE, limit: Uint128::zero() });
@@ -1128,7 +1212,7 @@ pub fn t_gen(p: P, idx: u64) -> impl Fn() {
             if !last && g2.chance(22) {
                 let was_full = symrt::is_full();
                 symrt::set_full(false);
-                let ev = g2.next() % 7;
+                let ev = g2.next() % 9;
                 let name = match ev {
                     0 => {
                         let (t, sp) = g2.pick(&[(0u128, 0u128), (d / 200, d / 50), (d / 50, 0), (0, d / 100)]);
@@ -1155,6 +1239,15 @@ pub fn t_gen(p: P, idx: u64) -> impl Fn() {
                         r.w.engine_exec(OWNER, &margined_perp::margined_engine::ExecuteMsg::SetPause { pause: false });
                         "unpause"
                     }
+                    6 => {
+                        r.w.vamm_exec(OWNER, vi, &margined_perp::margined_vamm::ExecuteMsg::SetOpen { open: false });
+                        r.w.vamm_exec(OWNER, vi, &margined_perp::margined_vamm::ExecuteMsg::SetOpen { open: true });
+                        "reopen"
+                    }
+                    7 => {
+                        r.w.update_engine(None, None, Some(Uint128::new(d + g2.pick(&[1u128, d / 50, d / 20]))), None);
+                        "partial-ratio-out-of-range"
+                    }
                     _ => {
                         r.w.engine_exec(OWNER, &margined_perp::margined_engine::ExecuteMsg::AddWhitelist { address: BOB.into() });
                         "whitelist"
@@ -1166,6 +1259,75 @@ pub fn t_gen(p: P, idx: u64) -> impl Fn() {
         }
         r.vi = 0;
         symrt::log_event(format!("history: {}", desc));
+    }
+}
+
+/// T-outsiders: fees have been collected (fee pool and insurance fund hold collateral, the fee pool
+/// lists the collateral token); accounts WITHOUT any role then send the auxiliary contracts'
+/// collateral-moving messages (fee pool SendToken naming the owner / a third party / themselves as
+/// recipient, insurance fund Withdraw) with symbolic amounts. Whatever the contracts answer, such a
+/// transaction may move collateral only between its sender, the engine, the insurance fund and the
+/// fee pool, and creates or destroys none
+pub fn t_outsiders(p: P) -> impl Fn() {
+    move || {
+        use margined_perp::margined_fee_pool::ExecuteMsg as PoolExec;
+        use margined_perp::margined_insurance_fund::ExecuteMsg as InsExec;
+        let mut cfg = p.cfg();
+        let d = cfg.d();
+        cfg.toll = Uint128::new(d / 50);
+        cfg.spread = Uint128::new(d / 100);
+        let mut r = p.run_cfg(cfg);
+        p.prefix_mode();
+        let token = match &r.w.token {
+            Some(t) => t.to_string(),
+            None => crate::world::DENOM.to_string(),
+        };
+        let fp = r.w.feepool.clone();
+        let ins = r.w.ins.clone();
+        r.w.exec(OWNER, &fp, &PoolExec::AddToken { token: token.clone() }, &[]);
+        let m1 = Uint128::new(60 * d);
+        let l1 = Uint128::new(5 * d);
+        let f = funds_for(&r, &p, m1, l1);
+        if !r.step(Op::Open { who: ALICE, side: p.side.clone(), margin: m1, lev: l1, limit: Uint128::zero(), funds: f }).tx.ok {
+            return;
+        }
+        r.w.next_block(15);
+        symrt::set_full(true);
+        let asset = match &r.w.token {
+            Some(t) => margined_common::asset::AssetInfo::Token { contract_addr: t.clone() },
+            None => margined_common::asset::AssetInfo::NativeToken { denom: crate::world::DENOM.into() },
+        };
+        let amt = crate::sx::var("amt", 0, 100 * d, d);
+        let calls: Vec<(&str, &str, String)> = vec![
+            (EVE, "pool.send-to-owner", OWNER.to_string()),
+            (ALICE, "pool.send-to-liquidator", LIQ.to_string()),
+            (EVE, "pool.send-to-self", EVE.to_string()),
+            (BOB, "pool.send-to-owner", OWNER.to_string()),
+            (EVE, "ins.withdraw", String::new()),
+            (ALICE, "ins.withdraw", String::new()),
+        ];
+        for (who, what, rcp) in calls {
+            let pre = r.w.balances();
+            let t = if what.starts_with("pool.") {
+                r.w.exec(who, &fp, &PoolExec::SendToken { token: token.clone(), amount: amt, recipient: rcp.clone() }, &[])
+            } else {
+                r.w.exec(who, &ins, &InsExec::Withdraw { token: asset.clone(), amount: amt }, &[])
+            };
+            let post = r.w.balances();
+            let label = format!("{} sent by {} ok={}", what, who, t.ok);
+            let mut tot0 = crate::sx::SInt::zero();
+            let mut tot1 = crate::sx::SInt::zero();
+            let mut others = vec![];
+            for (k, v0) in pre.iter() {
+                tot0 = tot0.add(crate::sx::s(*v0));
+                tot1 = tot1.add(crate::sx::s(post[k]));
+                if !(k == who || k == "engine" || k == "insurance_fund" || k == "fee_pool") {
+                    others.push(crate::sx::s(*v0).eq(crate::sx::s(post[k])));
+                }
+            }
+            symrt::prove_d("C03/total-collateral-conserved", tot0.eq(tot1), label.clone());
+            symrt::prove_d("C03/only-sender-engine-insurance-feepool-balances-move", crate::sx::Cond::all(others), label);
+        }
     }
 }
 
